@@ -26,6 +26,8 @@ ENTRIES = {
     "atto-from-str": ["<ant_evm::amount::AttoTokens as core::str::traits::FromStr>::from_str"],
     "multiaddr": ["ant_bootstrap::craft_valid_multiaddr_from_str", "ant_bootstrap::craft_valid_multiaddr"],
     "cache-file": ["ant_bootstrap::cache_store::BootstrapCacheStore::load_cache_data"],
+    # what was parsed from the cache file is then merged into the in-memory cache (counters added, timestamps compared) before it is written back
+    "cache-merge": ["ant_bootstrap::cache_store::BootstrapCacheStore::sync_and_flush_to_disk"],
     "registry-json": ["ant_service_management::NodeRegistry::from_json", "ant_service_management::NodeRegistry::load"],
     "record-header": ["ant_protocol::storage::header::RecordHeader::from_record", "ant_protocol::storage::header::RecordHeader::try_deserialize"],
     "record-body": ["ant_protocol::storage::header::try_deserialize_record"],
